@@ -401,7 +401,7 @@ def c09_queries(tier):
     if tier == 'quick':
         return [special_query('C09', 13, timeout=1500), special_shape_query('C09', 63, 0, 12)]
     return [special_query('C09', 16, timeout=6000), special_shape_query('C09', 63, 0, 12), special_shape_query('C09', 7, 63, 12),
-            special_shape_query('C09', 62, 0, 12), special_shape_query('C09', 1, 63, 12), special_shape_query('C09', 63, 63, 12)]
+            special_shape_query('C09', 62, 0, 12), special_shape_query('C09', 1, 63, 12), special_shape_query('C09', 63, 7, 12)]
 
 
 def c11_queries(tier):
